@@ -70,11 +70,22 @@ def run_loop_with_spec(it, node, frame, spec, kind, iterable=None):
     p = it.p
     qn = '%s:%d' % spec.key
     # the loop specification as seen by the property being checked (shared part + its own clauses)
-    lem_head, lem_tail, invariants = spec.parts(it.hooks.get('pid'))
+    pid = it.hooks.get('pid')
+    lem_head, lem_tail, invariants = spec.parts(pid)
+    only_for = getattr(spec, 'only_for', None)
+    spec_ghost = spec.ghost
+    spec_consts = spec.consts
+    if only_for and pid not in only_for:
+        # the shared clauses talk about a value-level specification (e.g. the round trip); this
+        # property only needs the havoc, the variant and its own clauses
+        d = spec.by_prop.get(pid, {})
+        lem_head, lem_tail, invariants = d.get('head', []), d.get('tail', []), d.get('invariants', [])
+        spec_ghost, spec_consts = [], []
+    spec_consts = list(spec_consts) + list(spec.by_prop.get(pid, {}).get('consts', []))
     # ---- ghost initialisation and loop-kind specific state
-    for (name, expr) in spec.consts:
+    for (name, expr) in spec_consts:
         frame.locals[name] = eval_in(it, frame, expr)
-    for (name, desc, init, step) in spec.ghost:
+    for (name, desc, init, step) in spec_ghost:
         frame.locals[name] = eval_in(it, frame, init)
     src_elt = None
     if kind == 'for':
@@ -110,7 +121,7 @@ def run_loop_with_spec(it, node, frame, spec, kind, iterable=None):
         r = havoc_var(it, frame, name, how)
         if r is not None:
             recomputes.append(r)
-    for (name, desc, init, step) in spec.ghost:
+    for (name, desc, init, step) in spec_ghost:
         _store(frame, name, fresh_value(it, name, desc))
     for src in getattr(spec, 'havoc_stmts', ()):
         # heap locations the body writes (fresh values via the prelude); an entry (var, stmt)
@@ -198,7 +209,7 @@ def run_loop_with_spec(it, node, frame, spec, kind, iterable=None):
         pass
     except BreakSignal:
         return      # leaves the loop with the current state; for/while-else is skipped
-    for (name, desc, init, step) in spec.ghost:
+    for (name, desc, init, step) in spec_ghost:
         if step is not None:
             _store(frame, name, eval_in(it, frame, step))
     for src in lem_tail:
